@@ -142,7 +142,8 @@ func runCaseFull(c *Case) (tr Trace) {
 		case "scope":
 			var child *dig.Scope
 			ot.Verdict = guard(func() error {
-				child = apis[op.Parent].scope(fmt.Sprintf("s%d", len(apis)))
+				// scope names are labels, not identities: siblings may well share one
+				child = apis[op.Parent].scope(fmt.Sprintf("s%d", len(apis)%2))
 				return nil
 			})
 			if child != nil {
